@@ -323,7 +323,8 @@ End Parent.
 Inductive emode := MTerm | MTrunc | MMixed.
 
 Record senv := { eid : Z; nag : nat; lens : list nat; mode : emode; leave : list (option nat); kind : okind;
-                 unaligned : bool (* the truncation dict lists the agents in reverse order *) }.
+                 unaligned : bool (* the truncation dict lists the agents in reverse order *);
+                 join : list (option nat) (* agent a with join a = Some k is absent until step k of every episode *) }.
 Record sstate := { base : Z; ord : nat; tm : nat; live : list nat }.
 Definition init_state : sstate := {| base := 0; ord := 0; tm := 0; live := [] |}.
 
@@ -336,10 +337,15 @@ Definition info_of (s : sstate) (a : nat) (first : bool) : info_t :=
 Definition reset_info (s : sstate) (a : nat) (opt : option Z) : info_t :=
   info_of s a true ++ match opt with Some z => [(2, z)] | None => [] end.
 
+(* agents that join late are not alive after a reset; agent a joins at step k of the episode *)
+Definition joins_late (E : senv) (a : nat) : bool := match nth a (join E) None with Some _ => true | None => false end.
+Definition joins_at (E : senv) (a t : nat) : bool :=
+  match nth a (join E) None with Some k => Nat.eqb k t | None => false end.
+
 (* env.reset(seed, options) *)
 Definition env_reset (E : senv) (s : sstate) (ra : rarg) : sstate * (dict obs_t * dict info_t) :=
   let s' := {| base := match fst ra with Some z => z | None => base s end;
-               ord := S (ord s); tm := 0; live := seq 0 (nag E) |} in
+               ord := S (ord s); tm := 0; live := filter (fun a => negb (joins_late E a)) (seq 0 (nag E)) |} in
   (s', (map (fun a => (a, observe E s' a 0%Z)) (live s'),
         map (fun a => (a, reset_info s' a (snd ra))) (live s'))).
 
@@ -352,11 +358,15 @@ Definition term_of (E : senv) (s : sstate) (endT : bool) (a : nat) : bool :=
 Definition trunc_of (E : senv) (s : sstate) (endT : bool) (a : nat) : bool :=
   endT && match mode E with MTerm => false | MTrunc => true | MMixed => negb (Nat.even (a + ord s)) end.
 
+(* the agents of a step: those alive, then those that join now (they get an observation at once) *)
+Definition step_agents (E : senv) (s : sstate) : list nat :=
+  live s ++ filter (fun a => joins_at E a (S (tm s)) && negb (existsb (Nat.eqb a) (live s))) (seq 0 (nag E)).
+
 (* env.step(actions); [acts] is positional over the possible agents *)
 Definition raw_step (E : senv) (s : sstate) (acts : list Z) : sstate * trans :=
   let s1 := {| base := base s; ord := ord s; tm := S (tm s); live := live s |} in
   let endT := cur_len E s <=? tm s1 in
-  let L := live s in
+  let L := step_agents E s in
   let done := fun a => term_of E s1 endT a || trunc_of E s1 endT a in
   ({| base := base s; ord := ord s; tm := S (tm s); live := filter (fun a => negb (done a)) L |},
    {| tobs := map (fun a => (a, observe E s1 a (nth a acts 0%Z))) L;
